@@ -57,6 +57,8 @@ def attribute(mm, steps):
     dup = any(s["op"] in ("build", "build2", "builddupc") and not s["ok"] for s in steps[:i + 1])
     removed = any(o in ("rmlib", "rmkb", "rminst") for o in before)
     loaded = any(o == "load" for o in before)
+    if kind in ("hang", "unknown-version"):
+        return "C09"        # a call on the library that does not return / a request for what is not there
     if kind == "panic":
         return "C20"
     if kind == "reporter":
@@ -116,7 +118,8 @@ def replay_chunk(gh, d, k, lines, salt):
     for line in p.stdout.splitlines():
         if line.startswith("STATS "):
             stats = json.loads(line[6:])
-    if stats is None or stats["histories"] != len(lines):
+    hung = stats is not None and any(k.startswith("hang@") for k in stats.get("kinds", {}))
+    if stats is None or (stats["histories"] != len(lines) and not hung):    # (after a history that did not return the process stops)
         raise ToolError("lib-replay did not process its chunk:\n" + p.stdout[-2000:] + p.stderr[-2000:])
     mms = [json.loads(l) for l in open(os.path.join(d, out))]
     return stats, mms
